@@ -83,7 +83,9 @@ pub fn parse_datetime(s: &str) -> Result<(NaiveDateTime, NaiveDateTime), String>
             }
         }
         None => {
-            if s.len() >= 5 {
+            // English date phrases are plain ASCII; the phrase parser slices its input by bytes
+            // and panics inside a multi-byte character
+            if s.len() >= 5 && s.is_ascii() {
                 match parse_date_string(s, Local::now(), Dialect::Uk) {
                     Ok(date_time) => {
                         let date_time = date_time.naive_local();
